@@ -83,6 +83,43 @@ theorem san_recovered (s : SanType)
     have := hother oid v rfl
     simp [reqSan, importSan, this]
 
+/-- supported name-constraint subtrees (e-mail, DNS, IPv4 and IPv6 subnets with address and
+    mask of the family's size), any number, permitted or excluded alike: recovered in order -/
+def subtreeSupported : GeneralSubtree → Bool
+  | .rfc822 _ | .dns _ => true
+  | .ip (.v4 a m) => a.length == 4 && m.length == 4
+  | .ip (.v6 a m) => a.length == 16 && m.length == 16
+  | .directoryName _ => false
+
+theorem subtrees_recovered (ts : List GeneralSubtree) (h : ts.all subtreeSupported = true) :
+    importSubtrees (ts.map (reqSubtree enumOf)) = .ok ts := by
+  induction ts with
+  | nil => rfl
+  | cons t ts ih =>
+    simp only [List.all_cons, Bool.and_eq_true] at h
+    have ih' := ih h.2
+    simp only [List.map_cons, importSubtrees, ih']
+    cases t with
+    | rfc822 b => rfl
+    | dns b => rfl
+    | directoryName dn => simp [subtreeSupported] at h
+    | ip c =>
+      cases c with
+      | v4 a m =>
+        have ha : a.length = 4 ∧ m.length = 4 := by simpa [subtreeSupported] using h.1
+        simp [reqSubtree, ha.1, ha.2]
+      | v6 a m =>
+        have ha : a.length = 16 ∧ m.length = 16 := by simpa [subtreeSupported] using h.1
+        simp [reqSubtree, ha.1, ha.2]
+
+/-- the standard extended key usages are recovered as a set: a standard purpose is imported
+    exactly when its identifier was written -/
+theorem ekus_recovered (ekus : List Eku) (e : Eku) :
+    e ∈ importEkus (ekus.map rfcEkuOid) ↔ (e ∈ stdEkus ∧ ∃ x ∈ ekus, rfcEkuOid x = e.oid) := by
+  unfold importEkus
+  rw [List.mem_filter]
+  simp only [List.contains_eq_mem, List.mem_map, decide_eq_true_eq]
+
 /-- the subject key identifier is captured as a fixed key identifier -/
 theorem ski_captured (crypto : Bool) (c : TbsCert) (b : Bytes) (rest : List Bytes)
     (h : c.exts.filterMap skiOf = b :: rest) : importKid crypto c = .ok (.preSpecified b) :=
